@@ -1,8 +1,52 @@
 import NetaddrVerif.Model.Proto
-/-! Driver ops of property C14 (stub: filled in by the property's model). -/
+import NetaddrVerif.Model.Address
+/-! Driver ops of property C14: `arith A:ver:val op X` · `ctor X ver|-` · `conv A:ver:val`. -/
 namespace NV.Driver.C14
-open NV NV.Proto
+open NV NV.Proto NV.Address
 
-def handle (_op : String) (_args : List String) : Option String := none
+/-- `i:<int>` or `a:<ver>:<val>` -/
+def parseOperand (tok : String) : Option Operand :=
+  match tok.splitOn ":" with
+  | ["i", n] => (parseInt n).map .int
+  | ["a", ver, v] => do pure (.addr ⟨← ver.toNat?, ← v.toNat?⟩)
+  | _ => none
+
+def showAddr (a : Addr) : String := s!"{a.ver}:{a.val}"
+
+def showRes : R Addr → String
+  | .ok r => showAddr r
+  | .error e => showErr e
+
+/-- result, then the left operand as it is after the operation -/
+def showArith (a : Addr) (r : R Addr) (inplace : Bool) : String :=
+  let after := if inplace then (stepInplace a r).1 else a
+  showRes r ++ "~" ++ showAddr after
+
+def handle (op : String) (args : List String) : Option String :=
+  match op, args with
+  | "arith", [a, o, x] => do
+    let a ← parseAddr a
+    let x ← parseOperand x
+    match o, x with
+    | "add", .int n => pure (showArith a (add a n) false)
+    | "radd", .int n => pure (showArith a (radd a n) false)
+    | "sub", .int n => pure (showArith a (sub a n) false)
+    | "rsub", .int n => pure (showArith a (rsub a n) false)
+    | "iadd", .int n => pure (showArith a (iadd a n) true)
+    | "isub", .int n => pure (showArith a (isub a n) true)
+    | "or", x => pure (showArith a (or_ a x) false)
+    | "and", x => pure (showArith a (and_ a x) false)
+    | "xor", x => pure (showArith a (xor_ a x) false)
+    | "shl", .int n => if n < 0 then none else pure (showArith a (shl a n.toNat) false)
+    | "shr", .int n => if n < 0 then none else pure (showArith a (shr a n.toNat) false)
+    | _, _ => none
+  | "ctor", [x, ver] => do
+    let x ← parseInt x
+    let ver ← if ver = "-" then some none else ver.toNat?.map some
+    pure (showRes (ctor x ver))
+  | "conv", [a] => do
+    let a ← parseAddr a
+    pure (" ".intercalate [toString (toInt a), toString (index a), String.ofList (hex a), showBool (nonzero a)])
+  | _, _ => none
 
 end NV.Driver.C14
